@@ -132,6 +132,44 @@ Definition sort_graph (gr : graph) : res unit * list (nat * list nat) :=
       else (Raise ValueError, orders gr)       (* raised before any graph is touched *)
   end.
 
+(* Graph.sort called on the graph `t` somewhere inside the forest `root` (t = the root itself, a subgraph, a graph
+   nested in a function body): only the scope of t is flattened and re-linked; the result lists the node order
+   of EVERY graph of root afterwards. *)
+Fixpoint find_n (t : nat) (n : node) : option graph :=
+  match n with
+  | Node _ _ subs =>
+      (fix go (l : list (nat * list node)) : option graph :=
+         match l with
+         | [] => None
+         | s :: r =>
+             if Nat.eqb (fst s) t then Some s
+             else match (fix gob (b : list node) : option graph :=
+                           match b with
+                           | [] => None
+                           | k :: b' => match find_n t k with Some g => Some g | None => gob b' end
+                           end) (snd s) with
+                  | Some g => Some g
+                  | None => go r
+                  end
+         end) subs
+  end.
+Fixpoint find_first (t : nat) (b : list node) : option graph :=
+  match b with [] => None | k :: b' => match find_n t k with Some g => Some g | None => find_first t b' end end.
+Definition find_graph (t : nat) (root : graph) : option graph :=
+  if Nat.eqb (fst root) t then Some root else find_first t (snd root).
+
+Fixpoint lookup_opt {A} (x : nat) (l : list (nat * A)) : option A :=
+  match l with [] => None | (k, v) :: r => if Nat.eqb x k then Some v else lookup_opt x r end.
+
+Definition sort_in (root : graph) (t : nat) : res unit * list (nat * list nat) :=
+  match find_graph t root with
+  | None => (Raise OtherError, orders root)
+  | Some sub =>
+      let '(r, os) := sort_graph sub in
+      (r, map (fun go : nat * list nat =>
+                 match lookup_opt (fst go) os with Some l => (fst go, l) | None => go end) (orders root))
+  end.
+
 (* Function.sort = Graph.sort of the function's graph. *)
 Definition sort_function (gr : graph) := sort_graph gr.
 
